@@ -5,7 +5,7 @@ caller gave, repeated exactly `level` times (nothing when that is empty); Indent
 level by one and print nothing."""
 import z3
 
-from vf.pyvc.dsl import Contract, SpecFn, Obj, OneOf, Const, Int, Str, STR_REPEAT
+from vf.pyvc.dsl import Helper, Contract, SpecFn, Obj, OneOf, Const, Int, Str, STR_REPEAT
 
 MODULE = 'calmjs.parse.handlers.indentation'
 
@@ -21,6 +21,13 @@ def build(module):
     nonempty = 'len(%s) * self._level > 0' % seff
     frag = '(str_repeat(%s, self._level), None, None, None, None)' % seff
     handler_params = {'self': IND, 'dispatcher': DISP, 'node': OPAQ, 'before': OPAQ, 'after': OPAQ, 'prev': OPAQ}
+    AROUND = OneOf(*[Const(v) for v in (None, '', 'x', '// c', '/* c */', '}', 'x\n', 'x\r', 'x\r\n', '\n', '\r\n', '\r', '\nx', '\r\nx', '\rx')])
+
+    def nl_end(s, nl):
+        return s is not None and (s[-len(nl):] in ('\r', '\n', nl))
+
+    def nl_start(s, nl):
+        return s is not None and (s[:len(nl)] in ('\r', '\n', nl))
     cs = [
         Contract(MODULE + ':Indentator.layout_handler_indent', params=dict(handler_params),
                  ensures=['self._level == old(self._level) + 1', 'result is None'],
@@ -38,4 +45,32 @@ def build(module):
                  result_cases=[(nonempty, '[(dispatcher.newline_str, 0, 0, None, None), %s]' % frag),
                                ('not (%s)' % nonempty, '[(dispatcher.newline_str, 0, 0, None, None)]')], env=env),
     ]
+    # OptionalNewline: the texts around the marker range over a finite set of shapes (absent, empty, plain token, line
+    # comment, brace, ending/starting with each newline string, white space); the level and both indentation strings stay
+    # symbolic.  Precondition: the text token in front does not itself end in a line break (no token of an accepted program
+    # does: strings and regex literals cannot contain one, comments end before it).  From the statement: the line break is
+    # there (printed now or supplied by a neighbour), it is followed by the indentation of the current level, and nothing
+    # else is printed.
+    nlfrag = '(dispatcher.newline_str, 0, 0, None, None)'
+    present = 'nl_end(before, dispatcher.newline_str) or nl_start(after, dispatcher.newline_str) or nl_end(prev, dispatcher.newline_str)'
+    for nl in ('\n', '\r\n', '\r'):
+        cs.append(Contract(
+            MODULE + ':Indentator.layout_handler_newline_optional', notes='newline_str=%r' % nl,
+            params={'self': IND, 'dispatcher': Obj(object, {'indent_str': Str, 'newline_str': Const(nl)}), 'node': OPAQ,
+                    'before': OneOf(*[Const(v) for v in (None, '', 'x', '// c', '}')]),
+                    'after': OneOf(*[Const(v) for v in (None, '', 'x', '}', '\n', '\nx', '\r\nx', '\rx')]),
+                    'prev': OneOf(*[Const(v) for v in (None, '', 'x', '  ', '\n', 'x\n', 'x\r\n', 'x\r')])},
+            requires=['self._level >= 0'], yields=Str,
+            ensures=['self._level == old(self._level)',
+                     'len(result) <= 2',
+                     'len(result) != 2 or (result[0] == %s and result[1] == %s)' % (nlfrag, frag),
+                     'len(result) != 1 or result[0] == %s or result[0] == %s' % (frag, nlfrag),
+                     # indentation always follows the (printed or supplied) line break
+                     'not (%s) or (len(result) >= 1 and result[-1] == %s)' % (nonempty, frag),
+                     '(%s) or len(result) == 0 or (len(result) == 1 and result[0] == %s)' % (nonempty, nlfrag),
+                     # the line break is really there
+                     '(len(result) >= 1 and result[0] == %s) or %s' % (nlfrag, present),
+                     # and is not doubled
+                     'not (len(result) >= 1 and result[0] == %s) or not (%s)' % (nlfrag, present)],
+            env=dict(env, nl_end=Helper(lambda e, s, nl: nl_end(s, nl)), nl_start=Helper(lambda e, s, nl: nl_start(s, nl)))))
     return cs, [], env
